@@ -592,7 +592,7 @@ func checkRegularOnly(r *Run, p *packages.Package, decls map[string]*ast.FuncDec
 // checkStaging: exported entry points that can reach extraction without passing a staging function.
 func checkStaging(r *Run, p *packages.Package, cg *CallGraph) {
 	info := p.TypesInfo
-	extract := cg.Func(modPath+"/retriever."+roleName("unpackTarFileTracked"))
+	extract := cg.Func(modPath + "/retriever." + roleName("unpackTarFileTracked"))
 	if extract == nil {
 		r.Undecide("C20-R4: unpackTarFileTracked not found")
 		return
